@@ -1094,7 +1094,10 @@ def _const_rand(n):
 
 
 REUSE_SCHEMES = (("v15", None), ("oaep", [None, None, None, False]), ("oaep", ["sha256", "sha1", b"L", True]),
-                 ("oaep", ["md5", None, b"", False]))
+                 ("oaep", ["md5", None, b"", False]),
+                 # the label is handed over in a bytearray which the caller overwrites right after new(): the cipher must go on
+                 # using the label it was created with (documented type: bytes/bytearray/memoryview)
+                 ("oaep-label-buffer-overwritten", ["sha256", None, b"label-in-a-buffer", False]))
 
 
 def _reuse_setup(kd, scheme, cfg):
@@ -1109,7 +1112,14 @@ def _reuse_setup(kd, scheme, cfg):
             return b"\x00\x02" + bytes(FILL[i % 8] for i in range(k - 3 - len(m))) + b"\x00" + m
         bad = b"\x00\x01" + bytes(FILL[i % 8] for i in range(k - 3)) + b"\x00"
     else:
-        factory = lambda: oaep_cipher(kd, cfg, randfunc=_const_rand)
+        if scheme == "oaep-label-buffer-overwritten":
+            def factory():
+                buf = bytearray(cfg[2])
+                c = oaep_cipher(kd, [cfg[0], cfg[1], buf, cfg[3]], randfunc=_const_rand)
+                buf[:] = bytes(len(buf))
+                return c
+        else:
+            factory = lambda: oaep_cipher(kd, cfg, randfunc=_const_rand)
         hn, mgfh, label = cfg_ref(cfg)
         hl = R.hash_len(hn)
         room = k - 2 * hl - 2
@@ -1133,6 +1143,7 @@ def _reuse_setup(kd, scheme, cfg):
         ops.append(("decrypt(ct2, sentinel, expected_pt_len=1)", lambda o: o.decrypt(cts[2], b"S", expected_pt_len=1)))
     for j, m in enumerate(msgs[:3] + [bytes(room + 1)]):
         ops.append(("encrypt(message %d, %d bytes)" % (j, len(m)), lambda o, m=m: o.encrypt(m)))
+    _reuse_setup.expected_plaintexts = list(msgs)          # ops[0..3] decrypt reference-made ciphertexts of these messages
     return factory, ops
 
 
@@ -1169,6 +1180,12 @@ def reuse_worker(shards):
         scheme, cfg = REUSE_SCHEMES[si]
         factory, ops = _reuse_setup(kd, scheme, cfg)
         table = [_reuse_call(factory(), fn, b"reuse%d" % i) for i, (_, fn) in enumerate(ops)]
+        for i, m in enumerate(_reuse_setup.expected_plaintexts):
+            if table[i] != ("ok", bytes(m)):
+                acc.violation("C07/reuse/%s/reference-ciphertext-not-decrypted" % scheme,
+                              "%s %s, %d-byte modulus: a fresh cipher object answers %s to a ciphertext that the RFC 8017 reference made for "
+                              "the message %s under this configuration" % (scheme, cfg_str(cfg) if cfg else "", kd["k"], short(repr(table[i])), short(m)),
+                              {"part": "reuse", "key": pubpart(kd), "scheme": scheme, "cfg": cfg, "history": [i]}, size=1)
         kinds = {t[0] for t in table}
         if kinds != {"ok", "ValueError"} or sum(1 for t in table if t[0] == "ok") < 5:
             acc.error("reuse alphabet of %s/%s: fresh outcomes %s" % (kname, scheme, [t[0] for t in table]))
@@ -1421,7 +1438,7 @@ def run(ctx):
     rdepth = 3 if q else 4
     for kname in (("k64", "k128") if q else ("k48", "k64", "k128", "k129")):
         for si, (scheme, cfg) in enumerate(REUSE_SCHEMES):
-            if scheme == "oaep" and keys[kname]["k"] < 2 * R.hash_len(cfg_ref(cfg)[0]) + 2 + 4:
+            if scheme.startswith("oaep") and keys[kname]["k"] < 2 * R.hash_len(cfg_ref(cfg)[0]) + 2 + 4:
                 continue
             nops = len(_reuse_setup(keys[kname], scheme, cfg)[1])
             for first in range(nops):
@@ -1509,6 +1526,10 @@ def replay(case, acc):
     elif part == "reuse":
         factory, ops = _reuse_setup(kd, case["scheme"], case["cfg"])
         table = [_reuse_call(factory(), fn, b"reuse%d" % i) for i, (_, fn) in enumerate(ops)]
+        for i, m in enumerate(_reuse_setup.expected_plaintexts):
+            if table[i] != ("ok", bytes(m)):
+                acc.violation("C07/reuse/%s/reference-ciphertext-not-decrypted" % case["scheme"], "replay: fresh object answers %s" % short(repr(table[i])),
+                              {"part": "reuse", "key": pubpart(kd), "scheme": case["scheme"], "cfg": case["cfg"], "history": [i]}, size=1)
         reuse_history(kd, case["scheme"], case["cfg"], factory, ops, table, tuple(case["history"]), acc)
     else:
         acc.error("unknown replay part %r" % part)
